@@ -518,6 +518,13 @@ def stdout_rule(repo, res, rule="STDOUT"):
                 gs = [g for g in A.guards_of(x, pm) if g[0]["k"] == "If" and g[1] == "then"]
                 if fn.qname == "main::main" and gs and A.diverges(gs[0][0]["then"]):
                     continue
+                # ... or the branch is an alternative to compiling: it calls no function of main.rs at all
+                allg = [g for g in A.guards_of(x, pm) if g[0]["k"] == "If"]
+                if fn.qname == "main::main" and allg:
+                    br = allg[0][0]["then"] if allg[0][1] == "then" else allg[0][0].get("else")
+                    local_calls = [c for c in A.walk(br) if c["k"] == "Call" and c["func"]["k"] == "Path" and repo.fn("main::" + c["func"]["path"].split("::")[-1]) is not None] if br is not None else [1]
+                    if not local_calls:
+                        continue
                 bad.append(f"{q}: {x['name']}! at {fn.file}:{x['l']}")
             elif x["k"] == "Call" and x["func"]["k"] == "Path" and x["func"]["path"].split("::")[-1] == "stdout" and "io" in x["func"]["path"]:
                 n += 1
